@@ -339,15 +339,15 @@ func (h *ipv6HeaderTLVOption) serializeTo(data []byte, fixLengths bool, dryrun b
 }
 
 func decodeIPv6HeaderTLVOption(data []byte, df gopacket.DecodeFeedback) (h *ipv6HeaderTLVOption, _ error) {
+	if len(data) > 0 && data[0] == 0 {
+		// Pad1 is a single byte
+		return &ipv6HeaderTLVOption{ActualLength: 1}, nil
+	}
 	if len(data) < 2 {
 		df.SetTruncated()
 		return nil, errors.New("IPv6 header option too small")
 	}
 	h = &ipv6HeaderTLVOption{}
-	if data[0] == 0 {
-		h.ActualLength = 1
-		return
-	}
 	h.OptionType = data[0]
 	h.OptionLength = data[1]
 	h.ActualLength = int(h.OptionLength) + 2
@@ -529,7 +529,7 @@ func (i *IPv6HopByHop) DecodeFromBytes(data []byte, df gopacket.DecodeFeedback) 
 	i.Options = i.Options[:0]
 	offset := 2
 	for offset < i.ActualLength {
-		opt, err := decodeIPv6HeaderTLVOption(data[offset:], df)
+		opt, err := decodeIPv6HeaderTLVOption(data[offset:i.ActualLength], df)
 		if err != nil {
 			return err
 		}
@@ -699,7 +699,7 @@ func (i *IPv6Destination) DecodeFromBytes(data []byte, df gopacket.DecodeFeedbac
 	i.Options = i.Options[:0]
 	offset := 2
 	for offset < i.ActualLength {
-		opt, err := decodeIPv6HeaderTLVOption(data[offset:], df)
+		opt, err := decodeIPv6HeaderTLVOption(data[offset:i.ActualLength], df)
 		if err != nil {
 			return err
 		}
